@@ -213,12 +213,8 @@ func (r *actorRunner) callback(g *areg) func(ctx vivid.ActorContext) {
 		r.plain++
 		r.turnBegins()
 		k := g.count.Add(1) - 1
-		due := g.rBase.Add(time.Duration(g.sim.after+int(k)*g.sim.interval) * time.Millisecond)
-		if now.Before(due.Add(-(tickMs + 1) * time.Millisecond)) {
+		if tooMany(g.rBase, g.sim.after, g.sim.interval, now, k+1) {
 			g.early.Store(true)
-			if os.Getenv("C08_DEBUG") != "" {
-				fmt.Fprintf(os.Stderr, "early: task %d k=%d after=%d interval=%d now-due=%v\n", g.sim.id, k, g.sim.after, g.sim.interval, now.Sub(due))
-			}
 		}
 		if r.terminated.Load() {
 			g.afterTer.Store(true)
